@@ -93,6 +93,34 @@ MessageKey(f, j, kind, leaf, n, gc, first) ==
 MessageNonce(f, j, kind, leaf, n, gc, first) ==
     EWL(f, "nonce", Nn) /\ f.ctxU32 = j /\ f.ctxLen = 4 /\ RatchetSecret(f.prk, j, kind, leaf, n, gc, first)
 
+\* ---- every key that reaches a MAC, an AEAD or the KEM key derivation has a legal origin (claims made for *calls*
+\* of the provider rather than for API values: the group context of the call is not known, the shape is)
+EpochSecretAny(f) == Unknown(f) \/ (EWL(f, "epoch", Nh) /\ (Unknown(f.prk) \/ f.prk.op = "extract"))
+FromEpoch(f, label) == DS(f, label) /\ EpochSecretAny(f.prk)
+\* confirmation tag and membership tag are the only MACs of the protocol
+MacKey(f) == Unknown(f) \/ FromEpoch(f, "confirm") \/ FromEpoch(f, "membership")
+\* TreeKEM: path_secret_[k+1] = DeriveSecret(path_secret_[k], "path"); node key pair = DeriveKeyPair(
+\* ExpandWithLabel(path_secret, "node", "", Nh)); the external key pair comes from DeriveSecret(epoch, "external")
+RECURSIVE PathSecretChain(_)
+PathSecretChain(f) == Unknown(f) \/ (DS(f, "path") /\ PathSecretChain(f.prk))
+KemIkm(f) == Unknown(f) \/ (DS(f, "node") /\ PathSecretChain(f.prk)) \/ FromEpoch(f, "external")
+\* ratchet secrets without position information
+RECURSIVE RatchetAny(_)
+RatchetAny(f) ==
+    \/ Unknown(f)
+    \/ (EWL(f, "secret", Nh) /\ f.ctxLen = 4 /\ RatchetAny(f.prk))
+    \/ ((DS(f, "application") \/ DS(f, "handshake")) /\ (Unknown(f.prk) \/ EWL(f.prk, "tree", Nh) \/ FromEpoch(f.prk, "encryption")))
+\* welcome_secret = DeriveSecret(Extract(joiner_secret, psk_secret), "welcome")
+WelcomeSecret(f) == DS(f, "welcome") /\ (Unknown(f.prk) \/ (f.prk.op = "extract" /\ PskSecret(f.prk.ikm)))
+\* what may key an AEAD: a message key (context = generation), the sender-data key (context = ciphertext sample),
+\* the welcome key (no context)
+AeadKey(f, len, lab) ==
+    \/ Unknown(f)
+    \* (a secret of the creation epoch has no recorded producer: the group was created before recording started)
+    \/ (EWL(f, lab, len) /\ f.ctxLen = 4 /\ RatchetAny(f.prk))
+    \/ (EWL(f, lab, len) /\ f.ctxLen > 4 /\ (Unknown(f.prk) \/ FromEpoch(f.prk, "sender data")))
+    \/ (EWL(f, lab, len) /\ f.ctx = Empty /\ f.ctxLen = 0 /\ (Unknown(f.prk) \/ WelcomeSecret(f.prk)))
+
 \* ---- 8.2 transcript hashes: confirmed_[n] = Hash(interim_[n-1] || ConfirmedTranscriptHashInput),
 \*      interim_[n] = Hash(confirmed_[n] || opaque confirmation_tag<V>), confirmation_tag = MAC(confirmation_key, confirmed_[n])
 InterimHash(f) ==
